@@ -82,7 +82,41 @@ func init() {
 
 func genCase(t *rapid.T) Case {
 	g := &sg.G{T: t, Cfg: sg.GenCfg{ConfigFalse: true, MaxMods: 3}}
-	return Case{Mods: g.GenSet(), Filter: g.Pick(len(filters), "filter")}
+	c := Case{Mods: g.GenSet(), Filter: g.Pick(len(filters), "filter")}
+	// operational command trees: a third class of nodes next to configuration and state
+	for i, m := range c.Mods {
+		if m.BelongsTo != "" || !g.Chance(1, 2, "opd") {
+			continue
+		}
+		n := 0
+		var cmd func(depth int, ind string) string
+		cmd = func(depth int, ind string) string {
+			n++
+			out := fmt.Sprintf("%sopd:command cmd%d-%d {\n", ind, i, n)
+			k := g.Pick(4, "opdkids")
+			for j := 0; j < k; j++ {
+				n++
+				switch g.Pick(3, "opdkind") {
+				case 0:
+					out += fmt.Sprintf("%s  opd:option opt%d-%d { type string; }\n", ind, i, n)
+				case 1:
+					out += fmt.Sprintf("%s  opd:argument arg%d-%d {\n%s    type string;\n", ind, i, n, ind)
+					if g.Bool("argopt") {
+						n++
+						out += fmt.Sprintf("%s    opd:option opt%d-%d { type string; }\n", ind, i, n)
+					}
+					out += ind + "  }\n"
+				default:
+					if depth > 0 {
+						out += cmd(depth-1, ind+"  ")
+					}
+				}
+			}
+			return out + ind + "}"
+		}
+		m.Raw = append(m.Raw, cmd(2, ""))
+	}
+	return c
 }
 
 func countNodes(ms schema.ModelSet, keep func(schema.Node) bool) (kept, removed, keptWithKids int) {
